@@ -225,6 +225,63 @@ def rule_q5(repo, col):
     col.floor("Q5.evidence_labels_covered", len(labels_seen), 3)
 
 
+def rule_q6(repo, col):
+    from .. import dtable
+    """the table behind target._cache (NestedDict) is keyed by the goal AND the engine state of the call (set_state/check_state): the four accessors derive the same key path,
+    ending in get_state(arguments)"""
+    c = repo.cls(ES, "NestedDict")
+    m = c.module
+    names = ("__getitem__", "__contains__", "__setitem__", "__delitem__")
+    forms = {}
+    for nm in names:
+        f = c.methods.get(nm)
+        if f is None:
+            raise AnalysisError("NestedDict.%s missing" % nm)
+        key = f.params[1]
+        # the path expression: the second component unpacked from the key, as finally re-bound before use; through a helper's return when one is used
+        path_expr = None
+        first = None
+        for st in f.node.body:
+            if isinstance(st, ast.Assign) and isinstance(st.targets[0], ast.Tuple) and len(st.targets[0].elts) == 2 and all(isinstance(e_, ast.Name) for e_ in st.targets[0].elts):
+                pk, sk = [e_.id for e_ in st.targets[0].elts]
+                v = st.value
+                if norm(v) == key:
+                    first = (pk, sk, None)
+                elif isinstance(v, ast.Call) and isinstance(v.func, ast.Attribute) and norm(v.func.value) in ("self", c.name, "NestedDict") and v.func.attr in c.methods:
+                    h = c.methods[v.func.attr]
+                    rets = [r.value for r in walk_no_nested(h.node) if isinstance(r, ast.Return) and r.value is not None]
+                    if len(rets) != 1 or not (isinstance(rets[0], ast.Tuple) and len(rets[0].elts) == 2):
+                        raise AnalysisError("NestedDict.%s: key helper %s not understood" % (nm, v.func.attr))
+                    henv = {}
+                    for hst in h.node.body:
+                        if isinstance(hst, ast.Assign) and len(hst.targets) == 1 and isinstance(hst.targets[0], ast.Name):
+                            henv[hst.targets[0].id] = dtable.subst(hst.value, henv)
+                        elif isinstance(hst, ast.Assign) and isinstance(hst.targets[0], ast.Tuple) and len(hst.targets[0].elts) == 2 and norm(hst.value) == h.params[-1]:
+                            henv[hst.targets[0].elts[0].id] = "%s[0]" % h.params[-1]
+                            henv[hst.targets[0].elts[1].id] = "%s[1]" % h.params[-1]
+                    first = (pk, sk, dtable.subst(rets[0].elts[1], henv).replace(h.params[-1], key))
+                break
+        if first is None:
+            raise AnalysisError("NestedDict.%s: key is not taken apart at the start" % nm)
+        pk, sk, path_expr = first
+        if path_expr is None:
+            env = {sk: "%s[1]" % key, pk: "%s[0]" % key}
+            for st in f.node.body[1:]:
+                if isinstance(st, ast.Assign) and len(st.targets) == 1 and isinstance(st.targets[0], ast.Name) and st.targets[0].id in (pk, sk):
+                    env[st.targets[0].id] = dtable.subst(st.value, env)
+                else:
+                    break
+            path_expr = env[sk]
+        forms[nm] = path_expr.replace(" ", "")
+        col.decide("Q6", m, f.node, "get_state(" in path_expr, "NestedDict.%s keys the table by the goal's arguments and the engine state" % nm,
+                   "NestedDict.%s derives the key path %s, which does not contain get_state(..): the engine state set by set_state/1 is then not part of the table key, so the same "
+                   "goal called under another state is answered from the table entry of the first call on this target - the answer depends on what was grounded before" % (nm, path_expr),
+                   construct="NestedDict.%s: key path without the engine state" % nm, function="NestedDict.%s" % nm)
+    col.decide("Q6", m, c.node, len(set(forms.values())) == 1, "the four accessors of NestedDict derive the same key path",
+               "the accessors of NestedDict derive different key paths (%s): an entry written under one key is looked up under another" % forms, construct="class NestedDict: key agreement",
+               function="NestedDict")
+
+
 def run(repo, col):
     col.rule("Q1", "DefineCache is created on the target by execute/execute_init only")
     col.rule("Q2", "every _cache access goes through the target")
@@ -234,3 +291,5 @@ def run(repo, col):
     rule_q3_q4(repo, col)
     col.rule("Q5", "evidence goals are grounded as roots")
     rule_q5(repo, col)
+    col.rule("Q6", "table keys include the engine state")
+    rule_q6(repo, col)
